@@ -148,3 +148,12 @@ def gen(lines: list[str]) -> None:
     wfn = func_def(cls.body, "_copy_dist_info")
     srt = [n for n in ast.walk(wfn) if isinstance(n, ast.Call) and isinstance(n.func, ast.Name) and n.func.id == "sorted"]
     lines.append(f"def wheelDistInfoSorted : Bool := {'true' if len(srt) == 1 else 'false'}")
+    # --- find_packages: `{k: sorted(v) ...}` over package_data and `sorted(packages)` in the return
+    fn = func_def(scls.body, "find_packages")
+    dc = [n for n in ast.walk(fn) if isinstance(n, ast.DictComp)]
+    data_sorted = any(isinstance(n.value, ast.Call) and isinstance(n.value.func, ast.Name) and n.value.func.id == "sorted" for n in dc)
+    ret = [n for n in ast.walk(fn) if isinstance(n, ast.Return) and isinstance(n.value, ast.Tuple) and len(n.value.elts) == 3]
+    pk_sorted = any(isinstance(r.value.elts[1], ast.Call) and isinstance(r.value.elts[1].func, ast.Name)
+                    and r.value.elts[1].func.id == "sorted" for r in ret)
+    lines.append(f"def sdistPackageDataSorted : Bool := {'true' if data_sorted else 'false'}")
+    lines.append(f"def sdistPackagesSorted : Bool := {'true' if pk_sorted else 'false'}")
